@@ -34,6 +34,11 @@ func vxLockForKey(locks []*locksutil.LockEntry, key string) *locksutil.LockEntry
 func vxLookupInternal(ts *TokenStore, ctx context.Context, id string, salted, tainted bool) (*logical.TokenEntry, error) {
 	vxLookups++
 	vxAssert("token entry is re-read while the per-token lock is held", vxHeld(vxLock) > 0)
+	if !tainted {
+		// the read that feeds the decrement must sit in the same critical section as the store: under the WRITE lock
+		// (a read under the read lock - or outside any lock - lets two requests decrement the same value)
+		vxReadUnderW = vxHeldW(vxLock)
+	}
 	if vxLookupErr {
 		return nil, vxErr("storage read failed")
 	}
@@ -47,8 +52,11 @@ func vxLookupInternal(ts *TokenStore, ctx context.Context, id string, salted, ta
 	return &c, nil
 }
 
+var vxReadUnderW bool
+
 func vxStoreToken(ts *TokenStore, ctx context.Context, te *logical.TokenEntry) error {
 	vxStores++
+	vxAssert("the use count that is stored was read inside the same write-locked critical section", vxReadUnderW)
 	vxAssert("token entry is stored while the per-token write lock is held", vxHeldW(vxLock))
 	if vxStoreFail {
 		return vxErr("storage write failed")
